@@ -108,42 +108,76 @@ theorem C02_union_container_first_witness (std : Std) :
 
 /-! ### the structural round trip -/
 
-/-- **C02 (structure).** Below a main class with `class _(JSONWizard.Meta): v1 = True; v1_key_case = 'CAMEL'` (the default
-dump transform): for every type of the fragment int / float / str / bool / Decimal / Path / UUID / date / time / datetime /
+/-- **C02 (structure).** Below a main class whose v1 Meta makes the load key case match the dump key transform — described
+by an `RTV1.Setup`: the Meta `su.m` and the key function `su.kf` both sides agree on; instances below for
+`v1_key_case = 'CAMEL'` with the default dump transform, keys as they are, AUTO, KEBAB / LISP, SNAKE and PASCAL — for every
+type of the fragment int / float / str / bool / Decimal / Path / UUID / date / time / datetime /
 non-negative timedelta (canonical tokens, under the named `StdLaws`, incl. the `Z` spelling read back by `fromisoformat`) /
 Enum (pairwise different values) / Literal[...] / bytes / bytearray (base64 law) / Optional[·] / list[·] / deque[·] /
 set[·] / frozenset[·] (hashable, pairwise different elements) / tuple[·, ...] / fixed tuples (also nested in one another:
 the generated `v1[k]` indexing, `RTV1.v1Tuple_ok`) / NamedTuple classes / dict[str, ·] / defaultdict[str, ·] /
-OrderedDict[str, ·] / plain dataclass (no customisation of its own, pairwise distinct camelCase keys — `RTV1.PlainCls`), nested
+OrderedDict[str, ·] / Unions holding a tagged dataclass next to any other members that do not answer to its tag, and None /
+dataclass whose only customisation of its own is a tag (each field is dumped under `su.kf name`, that key is
+the first one its loader tries, and the keys — and the tag key — are pairwise distinct: `RTV1.ClsOK su`), nested
 to any depth, and every conforming value: whatever the dump produces, its JSON image loads back to exactly the value
 through the v1 loader. By induction over the conformance derivation; the dataclass case determines the shape of the
 dumped dict (`RTV1.dumpFields_shape`), shows that the generated field loop finds every field in it (`RTV1.v1Fields_ok`)
 and runs the finish step (`RTV1.v1Finish_ok`). -/
-theorem C02_roundtrip_struct (std : Std) (laws : StdLaws std) (t : Ty) (v : PyVal) (hc : RTV1.Conf std t v) (d : DVal)
-    (h : dumpV std false RTV1.cV1 v = .ok d) : loadV1 std RTV1.cV1 t (RT.toJ d) = .ok v :=
+theorem C02_roundtrip_struct (su : RTV1.Setup) (std : Std) (laws : StdLaws std) (t : Ty) (v : PyVal)
+    (hc : RTV1.Conf su std t v) (d : DVal)
+    (h : dumpV std false (some su.m) v = .ok d) : loadV1 std (some su.m) t (RT.toJ d) = .ok v :=
   RTV1.roundtrip std laws t v hc d h
 
 /-- … and at the top level: `fromdict(cls, json.loads(json.dumps(asdict(x)))) == x` for every instance of a main class
 that declares that Meta. -/
-theorem C02_roundtrip_root (std : Std) (laws : StdLaws std) (ci : ClassInfo) (ftys : List (S × Ty)) (v : PyVal)
-    (hm : ci.cmeta = some RTV1.mV1) (hc : RTV1.Conf std (.cls ci ftys) v) (d : DVal) (h : asdict std {} v = .ok d) :
-    fromdictV1 std (.cls ci ftys) (RT.toJ d) = .ok v :=
+theorem C02_roundtrip_root (su : RTV1.Setup) (std : Std) (laws : StdLaws std) (ci : ClassInfo) (ftys : List (S × Ty))
+    (v : PyVal) (hm : ci.cmeta = some su.m) (hc : RTV1.Conf su std (.cls ci ftys) v) (d : DVal)
+    (h : asdict std {} v = .ok d) : fromdictV1 std (.cls ci ftys) (RT.toJ d) = .ok v :=
   RTV1.roundtrip_root std laws ci ftys v hm hc d h
 
+/-- **the configurations the property names.** Each is a `Setup` (its side conditions are checked by evaluation), and for
+each of them an unaliased class (`RTV1.Unaliased`: plain constructor fields, distinct names) meets `RTV1.PlainCls` under
+the stated, purely syntactic condition on its field names: none for keys as they are and for AUTO (which tries the field's
+own name first); pairwise distinct transformed names for KEBAB and SNAKE; additionally a defined transform for CAMEL and
+PASCAL. -/
+theorem C02_key_cases (ci : ClassInfo) (ftys : List (S × Ty)) (hu : RTV1.Unaliased ci ftys) (hm : ci.cmeta = none) :
+    RTV1.PlainCls RTV1.asIsSetup ci ftys ∧ RTV1.PlainCls RTV1.autoSetup ci ftys ∧
+    ((ci.fields.map (fun f => toLisp f.name)).Nodup → RTV1.PlainCls RTV1.kebabSetup ci ftys) ∧
+    ((ci.fields.map (fun f => toSnake f.name)).Nodup → RTV1.PlainCls RTV1.snakeSetup ci ftys) ∧
+    ((∀ f ∈ ci.fields, ∃ k, toCamel f.name = some k) → (ci.fields.map (fun f => (toCamel f.name).getD f.name)).Nodup →
+      RTV1.PlainCls RTV1.camelSetup ci ftys) ∧
+    ((∀ f ∈ ci.fields, ∃ k, toPascal f.name = some k) → (ci.fields.map (fun f => (toPascal f.name).getD f.name)).Nodup →
+      RTV1.PlainCls RTV1.pascalSetup ci ftys) :=
+  ⟨RTV1.plain_asIs ci ftys hu (Or.inl hm), RTV1.plain_auto ci ftys hu (Or.inl hm),
+   fun hk => RTV1.plain_kebab ci ftys hu (Or.inl hm) hk, fun hk => RTV1.plain_snake ci ftys hu (Or.inl hm) hk,
+   fun hc hk => RTV1.plain_camel ci ftys hu (Or.inl hm) hc hk, fun hc hk => RTV1.plain_pascal ci ftys hu (Or.inl hm) hc hk⟩
+
+/-- the Metas of the six configurations, spelled out -/
+theorem C02_key_case_metas :
+    RTV1.camelSetup.m = { v1 := some true, v1KeyCase := some .camel } ∧
+    RTV1.asIsSetup.m = { v1 := some true, keyTransformDump := some .none } ∧
+    RTV1.autoSetup.m = { v1 := some true, v1KeyCase := some .auto, keyTransformDump := some .none } ∧
+    RTV1.kebabSetup.m = { v1 := some true, v1KeyCase := some .kebab, keyTransformDump := some .lisp } ∧
+    RTV1.snakeSetup.m = { v1 := some true, v1KeyCase := some .snake, keyTransformDump := some .snake } ∧
+    RTV1.pascalSetup.m = { v1 := some true, v1KeyCase := some .pascal, keyTransformDump := some .pascal } :=
+  ⟨rfl, rfl, rfl, rfl, rfl, rfl⟩
+
 /-- the hypotheses are satisfiable: `Root(inner_obj: Inner, by_name: dict[str, Inner], when_at: Optional[datetime])` with
-the v1 Meta and `Inner(val_one: int, tags: list[str])` are both `RTV1.PlainCls` -/
+the v1 CAMEL Meta and `Inner(val_one: int, tags: list[str])` are both `RTV1.PlainCls`; `Inner` also under AUTO and with
+keys as they are -/
 theorem C02_roundtrip_example :
-    RTV1.PlainCls RTV1.exRoot RTV1.exRootTys ∧ RTV1.PlainCls RTV1.exInner RTV1.exInnerTys ∧
-    RTV1.exRoot.cmeta = some RTV1.mV1 :=
-  ⟨RTV1.exRoot_plain, RTV1.exInner_plain, rfl⟩
+    RTV1.PlainCls RTV1.camelSetup RTV1.exRoot RTV1.exRootTys ∧ RTV1.PlainCls RTV1.camelSetup RTV1.exInner RTV1.exInnerTys ∧
+    RTV1.exRoot.cmeta = some RTV1.camelSetup.m ∧
+    RTV1.PlainCls RTV1.autoSetup RTV1.exInner RTV1.exInnerTys ∧ RTV1.PlainCls RTV1.asIsSetup RTV1.exInner RTV1.exInnerTys :=
+  ⟨RTV1.exRoot_plain, RTV1.exInner_plain, rfl, RTV1.exInner_plain_auto, RTV1.exInner_plain_asIs⟩
 
 /-- the kinds added to the fragment are inhabited: a `tuple[int, tuple[str, bool]]` (a fixed tuple nested in a fixed
 tuple: the shape repaired by f3aedfc), a `bytes`, a `frozenset[str]` and a `Literal[1, 'a']` value conform. -/
-theorem C02_roundtrip_example_containers (std : Std) :
-    RTV1.Conf std (.tuple [.int, .tuple [.str, .bool]]) (.tuple [.int 1, .tuple [.str "a".toList, .bool true]]) ∧
-    RTV1.Conf std .bytes (.bytes false [1, 2, 255]) ∧
-    RTV1.Conf std (.seq .frozenset .str) (.seq .frozenset [.str "a".toList, .str "b".toList]) ∧
-    RTV1.Conf std (.literal [.int 1, .str "a".toList]) (Lit.toPy (.str "a".toList)) := by
+theorem C02_roundtrip_example_containers (su : RTV1.Setup) (std : Std) :
+    RTV1.Conf su std (.tuple [.int, .tuple [.str, .bool]]) (.tuple [.int 1, .tuple [.str "a".toList, .bool true]]) ∧
+    RTV1.Conf su std .bytes (.bytes false [1, 2, 255]) ∧
+    RTV1.Conf su std (.seq .frozenset .str) (.seq .frozenset [.str "a".toList, .str "b".toList]) ∧
+    RTV1.Conf su std (.literal [.int 1, .str "a".toList]) (Lit.toPy (.str "a".toList)) := by
   refine ⟨RTV1.Conf.tuple _ _ (by simp) rfl ?_, RTV1.Conf.bytes _, RTV1.Conf.frozenset _ _ (by rfl) (by rfl) ?_,
     RTV1.Conf.literal _ (.str "a".toList) (by simp) (by rfl)⟩
   · intro p hp
